@@ -267,6 +267,57 @@ pub fn run(args: &[&str]) -> String {
     }
     // several trusted issuers whose DIDs differ only in letter case: the status must be looked up in the document whose id
     // EQUALS the credential's issuer.  `statusm <order> <index> <set of issuer AbCd> <set of issuer abcd>`
+    // `statusx <variant> <index> <setA> <setB>`: services with the fragment `#rev` under two DIDs.
+    //   foreign: the issuer holds `issuer#rev` (setA); the status entry names `other#rev`       -> service lookup error
+    //   two:     the issuer holds `other#rev` (setA) then `issuer#rev` (setB); entry `issuer#rev` -> membership in setB
+    //   twor:    the same services in the other order
+    Some("statusx") if args.len() == 5 => {
+      let (Ok(idx), Some(sa), Some(sb)) = (args[2].parse::<u32>(), nats(args[3]), nats(args[4])) else { return "bad-request".into() };
+      let issuer_did = did();
+      let other_did = CoreDID::parse("did:example:other").unwrap();
+      let mut doc = CoreDocument::builder(Object::new()).id(issuer_did.clone()).build().unwrap();
+      let own = issuer_did.to_url().join("#rev").unwrap();
+      let foreign = other_did.to_url().join("#rev").unwrap();
+      let (status_id, want): (String, Option<bool>) = match args[1] {
+        "foreign" => {
+          doc.insert_service(bitmap_of(&sa).to_service(own.clone()).unwrap()).unwrap();
+          (format!("{}?index={}#rev", other_did, idx), None)
+        }
+        v @ ("two" | "twor") => {
+          let first = bitmap_of(&sa).to_service(foreign.clone()).unwrap();
+          let second = bitmap_of(&sb).to_service(own.clone()).unwrap();
+          if v == "two" {
+            doc.insert_service(first).unwrap();
+            doc.insert_service(second).unwrap();
+          } else {
+            doc.insert_service(second).unwrap();
+            doc.insert_service(first).unwrap();
+          }
+          (format!("{}?index={}#rev", issuer_did, idx), Some(sb.contains(&idx)))
+        }
+        _ => return "bad-request".into(),
+      };
+      let mut cred: Credential = CredentialBuilder::default()
+        .issuer(Issuer::Url(Url::parse(issuer_did.as_str()).unwrap()))
+        .subject(Subject::with_id(Url::parse("did:example:subject").unwrap()))
+        .build()
+        .unwrap();
+      let mut props = Object::new();
+      props.insert("revocationBitmapIndex".into(), Value::String(idx.to_string()));
+      cred.credential_status = Some(Status::new_with_properties(Url::parse(&status_id).unwrap(), "RevocationBitmap2022".to_string(), props));
+      let r = JwtCredentialValidatorUtils::check_status(&cred, &[doc], StatusCheck::Strict);
+      let name: &'static str = match &r {
+        Ok(()) => "ok",
+        Err(e) => e.into(),
+      };
+      let f = match want {
+        None if name == "ok" || name == "Revoked" => Some(format!("status-report-wrong:a status entry that names the service of ANOTHER DID is answered ({}) from the issuer's own service with the same fragment", name)),
+        Some(true) if name != "Revoked" => Some(format!("status-report-wrong:member of the issuer's own service but {} (a service of another DID shares the fragment)", name)),
+        Some(false) if name != "ok" => Some(format!("status-report-wrong:not a member of the issuer's own service but {} (a service of another DID shares the fragment)", name)),
+        _ => None,
+      };
+      with(format!("u:{}", name), f)
+    }
     Some("statusm") if args.len() == 5 => {
       let (Some(i), Some(a), Some(b)) = (args[2].parse::<u32>().ok(), nats(args[3]), nats(args[4])) else { return "bad-request".into() };
       let mk = |d: &str, set: &[u32]| {
@@ -341,6 +392,15 @@ impl Hist {
   }
 }
 
+/// a batch exactly as given: order and repetitions kept
+fn raw(is: &[u32]) -> String {
+  if is.is_empty() {
+    "-".into()
+  } else {
+    is.iter().map(|x| x.to_string()).collect::<Vec<_>>().join(",")
+  }
+}
+
 fn csv(is: &[u32]) -> String {
   if is.is_empty() {
     "-".into()
@@ -359,6 +419,11 @@ fn index_sets(r: &mut Rng, thorough: bool) -> Vec<Vec<u32>> {
     sets.push((0..n).collect());
     sets.push((0..n).map(|i| i * 3).collect());
     sets.push((0..n).map(|i| 65536 * (i % 5) + i).collect());
+  }
+  // one index per container, a few containers: compressed forms of every block type (the third base64 character)
+  for n in 1u32..=(if thorough { 64 } else { 24 }) {
+    sets.push((0..n).map(|i| i << 16).collect());
+    sets.push((0..n).map(|i| (i << 16) + i * 257).collect());
   }
   let cnt = if thorough { 300 } else { 40 };
   for k in 0..cnt {
@@ -402,7 +467,10 @@ pub fn gen(thorough: bool, seed: u64, out: &mut impl Write) {
       }
       // type variations and endpoint shapes
       writeln!(out, "C06 decode {} {} Z={}={}", hex(b"Other"), hex(url.as_bytes()), hex(&z), set).unwrap();
-      writeln!(out, "C06 decode {},{} {} Z={}={}", hex(b"Other"), ty, hex(url.as_bytes()), hex(&z), set).unwrap();
+      // a service with several types is a bitmap service wherever the bitmap type stands in the list
+      for tys in [format!("{},{}", hex(b"Other"), ty), format!("{},{}", ty, hex(b"Other")), format!("{},{},{}", hex(b"Other"), hex(b"CredentialStatusService"), ty)] {
+        writeln!(out, "C06 decode {} {} Z={}={} OWN=x={}", tys, hex(url.as_bytes()), hex(&z), set, set).unwrap();
+      }
       writeln!(out, "C06 decode {} ~ Z={}={}", ty, hex(&z), set).unwrap();
     } else {
       // large sets: implementation-side round trip only (the line would be too long for the table)
@@ -427,8 +495,8 @@ pub fn gen(thorough: bool, seed: u64, out: &mut impl Write) {
       let n = r.below(7) as usize;
       let is: Vec<u32> = (0..n).map(|_| r.below(span) as u32).collect();
       match r.below(3) {
-        0 => ops.push(format!("un:{}", csv(&is))),
-        _ => ops.push(format!("rv:{}", csv(&is))),
+        0 => ops.push(format!("un:{}", raw(&is))),
+        _ => ops.push(format!("rv:{}", raw(&is))),
       }
       ops.push(format!("q:{}", r.below(span)));
     }
@@ -436,6 +504,42 @@ pub fn gen(thorough: bool, seed: u64, out: &mut impl Write) {
     // every second history also through IotaDocument's own revoke / unrevoke methods
     if k % 2 == 0 {
       writeln!(out, "C06 ihist {} {}", csv(&start), ops.join(" ")).unwrap();
+    }
+  }
+  // (b') batches that are nearly a contiguous range: unsorted, with a repeated index, with one index outside
+  let crafted: [&[u32]; 8] = [&[5, 9, 7, 8], &[20, 22, 22], &[3, 1, 2, 4], &[7, 7], &[10, 12, 11, 11], &[1, 3, 3, 4], &[100, 102, 101, 103, 103], &[6, 5]];
+  for b in crafted {
+    for op in ["rv", "un"] {
+      let start = if op == "un" { "0,1,2,3,4,5,6,7,8,9,10,11,12,20,21,22,100,101,102,103,104" } else { "-" };
+      let qs: Vec<String> = (b.iter().min().unwrap().saturating_sub(1)..=b.iter().max().unwrap() + 1).map(|q| format!("q:{}", q)).collect();
+      writeln!(out, "C06 hist {} {}:{} {}", start, op, raw(b), qs.join(" ")).unwrap();
+      writeln!(out, "C06 ihist {} {}:{} {}", start, op, raw(b), qs.join(" ")).unwrap();
+    }
+  }
+  for _ in 0..(if thorough { 600 } else { 60 }) {
+    let base = r.below(50) as u32;
+    let n = 2 + r.below(5) as u32;
+    let mut b: Vec<u32> = (base..base + n).collect();
+    // shuffle, then replace one element by a duplicate of another or by a value just outside
+    for i in (1..b.len()).rev() {
+      let j = r.below(i as u64 + 1) as usize;
+      b.swap(i, j);
+    }
+    let k = r.below(b.len() as u64) as usize;
+    b[k] = match r.below(3) {
+      0 => b[(k + 1) % b.len()],
+      1 => base + n + r.below(3) as u32,
+      _ => b[k],
+    };
+    let qs: Vec<String> = (base.saturating_sub(1)..=base + n + 3).map(|q| format!("q:{}", q)).collect();
+    writeln!(out, "C06 hist {} {}:{} {}", if r.chance(1, 2) { "-".to_string() } else { csv(&(base..base + n + 3).collect::<Vec<_>>()) }, r.pick(&["rv", "un"]), raw(&b), qs.join(" ")).unwrap();
+  }
+  // (d') the service is looked up by the FULL id of the status entry: another DID with the same fragment is another service
+  for idx in [0u32, 5, 7] {
+    for (a, b) in [("5", "7"), ("7", "5"), ("-", "5,7"), ("5,7", "-")] {
+      for v in ["foreign", "two", "twor"] {
+        writeln!(out, "C06 statusx {} {} {} {}", v, idx, a, b).unwrap();
+      }
     }
   }
   // (d) check_status decision table
